@@ -63,6 +63,52 @@ def build_harness():
     return time.time() - t0
 
 
+HARNESS_SH = os.path.join(VERIF, "harness_sh")
+VH_SH = os.path.join(WORK, "target_sh", "release", "vh_sh")
+
+
+def build_harness_sh():
+    """Second harness binary (C15 drivers over StrongholdStorage); only the thorough tier of C15 needs it."""
+    t0 = time.time()
+    lock = os.path.join(HARNESS_SH, "Cargo.lock")
+    if not os.path.exists(lock):
+        import shutil
+        shutil.copy("/repo/Cargo.lock", lock)
+    rc, out = sh(["cargo", "build", "--release", "--offline", "-q"], cwd=HARNESS_SH, timeout=3000)
+    if rc != 0:
+        sys.stdout.write(out[-6000:])
+        raise ToolError("stronghold harness build failed")
+    return time.time() - t0
+
+
+class stronghold_backend(object):
+    """with stronghold_backend(prop): every vh call inside runs the StrongholdStorage binary; snapshot files live in a
+    directory under work/ that is emptied afterwards."""
+
+    def __init__(self, prop):
+        self.dir = os.path.join(workdir(prop), "sh_tmp")
+
+    def __enter__(self):
+        global VH
+        os.makedirs(self.dir, exist_ok=True)
+        self.old = VH
+        VH = VH_SH
+        os.environ["VH_SH_DIR"] = self.dir
+        return self
+
+    def __exit__(self, *a):
+        global VH
+        VH = self.old
+        os.environ.pop("VH_SH_DIR", None)
+        for n in os.listdir(self.dir):
+            if n.endswith(".stronghold"):
+                try:
+                    os.remove(os.path.join(self.dir, n))
+                except OSError:
+                    pass
+        return False
+
+
 def workdir(prop):
     d = os.path.join(WORK, prop)
     os.makedirs(d, exist_ok=True)
